@@ -151,10 +151,15 @@ def unit_main_cli(eng, outfile_kind, lst, implicit_bin, n_emitted, report_format
         internal = bool(I.get("internal_error_path"))
         region8 = (slen(I["code"]) >= 65536) if "D8" in common.ACTIVE_FINDINGS else None
         eng.prove("the-internal-error-path-is-taken-only-for-an-internal-exception-of-parse/compile(itself excluded by C08)", (not internal) or crashed, region=region8)
-        eng.prove("failure-status-iff-an-error-was-reported-or-an-output-could-not-be-written-or-the-internal-error-path-was-taken",
-                  (st == 1) == (any_error or io_failed or internal))
-        if I.get("compile_outcome") in ("clean", "warnings-only"):
-            eng.prove("warnings-alone-never-fail-the-build", st == 0 or io_failed or internal)
+        # an image of 65536 bytes or more cannot be put into a container whose header holds a 16-bit length ('bin' here): a reported failure (D8, fixed)
+        o_is_bin = (isinstance(outfile_kind, str) and outfile_kind.split("/")[-1].lower().endswith(".bin")) or (outfile_kind is None and implicit_bin and not emitted)
+        wants_bin = any(e[2] == "bin" for e in emitted) or o_is_bin
+        compiled = I.get("compile_outcome") in ("clean", "warnings-only")
+        fmt_failed = z3.And(z3.BoolVal(bool(wants_bin and compiled)), slen(I["code"]) >= 65536)
+        eng.prove("failure-status-iff-an-error-was-reported-or-an-output-could-not-be-written-or-built-or-the-internal-error-path-was-taken",
+                  z3.BoolVal(st == 1) == z3.Or(z3.BoolVal(bool(any_error or io_failed or internal)), fmt_failed), region=region8)
+        if compiled:
+            eng.prove("warnings-alone-never-fail-the-build", z3.Or(z3.BoolVal(bool(st == 0 or io_failed or internal)), fmt_failed), region=region8)
         # no output may exist after a failed run
         region = True if ("D12" in common.ACTIVE_FINDINGS and io_failed and len(I["writes"]) >= 1) else None
         if st == 1:
@@ -295,8 +300,17 @@ def unit_emit_files(eng, shape):
             recs.append((_ctx(eng), _ctx(eng), fmt, "/out/file%d.%s" % (i, fmt)) + extra)
         comp.attrs["emitted_files"] = list(recs)
         ff = eng.resolve_global(cmod, "file_formats")
+        I["built"] = []
+
+        def fmt_stub(e, b_, c_, *args, _n="?"):
+            # contract of a format function (formats.bin_: C13 unit formats.bin_): the container, or struct.error when the image does not fit its header
+            k = pick(e, ["ok", "struct.error"], "format")
+            I["built"].append((_n, k))
+            if k == "struct.error":
+                raise PyRaise(Exc("struct.error"))
+            return Obj("Container", dict(fmt=_n, base=b_, code=c_, args=tuple(args)), name="container")
         for fname in list(ff):
-            ff[fname] = Builtin("format:" + fname, lambda e, b_, c_, *args, _n=fname: Obj("Container", dict(fmt=_n, base=b_, code=c_, args=tuple(args)), name="container"))
+            ff[fname] = Builtin("format:" + fname, lambda e, b_, c_, *args, _n=fname: fmt_stub(e, b_, c_, *args, _n=_n))
         I.update(base=base, code=code, recs=recs)
 
         def c_open_device(e, path, mode):
@@ -321,6 +335,11 @@ def unit_emit_files(eng, shape):
             return
         if not recs:
             eng.prove("nothing-to-emit:(False, None)", o[1][0] is False and o[1][1] is None and not I["opened"])
+            return
+        n_unbuilt = sum(1 for _, k in I["built"] if k == "struct.error")
+        if n_unbuilt:
+            eng.prove("a-container-that-cannot-be-built(image too large for its header)-is-a-too-large-image-report-each-and-NOTHING-is-written",
+                      [e[1] for e in errors(eng)] == ["too-large-image"] * n_unbuilt and not I["opened"] and not I["writes"] and [n_ for n_, _ in I["built"]] == [r[2] for r in recs])
             return
         eng.prove("every-record-is-opened-exactly-once-in-order-at-its-own-path-for-binary-writing",
                   [(p_, m_) for p_, m_, _ in I["opened"]] == [(r[3], "wb") for r in recs])
